@@ -524,3 +524,14 @@ def guarded(run, case, fn, *args, **kw):
             run.fail("impl-vs-spec", case, {"raised": repr(exc)[:300]})
             return None
         raise
+
+
+def corpus_cases(pid):
+    """Minimised past failures (witnesses of repaired defects); every run replays them first."""
+    d = os.path.join(VERIF, "corpus", pid)
+    out = []
+    if os.path.isdir(d):
+        for fn in sorted(os.listdir(d)):
+            if fn.endswith(".json"):
+                out.append(json.load(open(os.path.join(d, fn)))["case"])
+    return out
